@@ -79,9 +79,12 @@ def check(index, ctx):
                     ctx.require(bool(e["fresh"]), "R4", _layout.key(e), "value is freshly allocated",
                                 f"`{e['text']}` stores a tensor that is not freshly allocated (origin {e['value_origin']}): the new .grad shares memory with the aggregated vector / "
                                 "with another parameter's .grad, so a later in-place edit of one changes the other", e["loc"])
-            if res.kind == "return" and not _pipe.blocking(res) and not _pipe.is_empty_path(res):
+            if res.kind == "return" and not _pipe.blocking(res):
+                # every requested collection that this path did not find empty receives its update (an early exit taken because ANOTHER collection is
+                # empty must not skip it)
                 written = {a for e in gw for a in e["target"]}
-                miss = sorted(want - written)
+                empties = _pipe.empty_atoms(res)
+                miss = sorted(a for a in want - written if a not in empties and (a != "tasks_params[i]" or "tasks_params" not in empties))
                 ctx.require(not miss, "R0", f"{run.label}: every requested collection receives its update on path[{res.describe_path()[-60:]}]" if not miss else
                             f"{run.entry}: a returning call leaves the .grad of {miss} untouched", "all requested collections written",
                             f"path [{res.describe_path()[-120:]}] returns without creating/adding to the .grad of the requested {miss}", "")
